@@ -2,7 +2,7 @@
 from ..core import kdsl, kgen
 from ..runner import Facet, Property
 
-WEIGHTS = {"timeout": 4, "wait": 7, "succeed": 3, "fail": 3, "join": 5, "spawn": 3, "cb": 2, "cbjoin": 2,
+WEIGHTS = {"timeout": 5, "wait": 9, "succeed": 3, "fail": 3, "join": 6, "spawn": 3, "cb": 2, "cbjoin": 2,
            "return": 1, "raise": 1, "interrupt": 1}
 
 
@@ -47,7 +47,7 @@ def strategy(tier):
     big = tier == "thorough"
     pol = kgen.policies(bias=["continue", "continue", "rewait"])
     return kgen.programs(WEIGHTS, max_bodies=6 if big else 5, max_instrs=8, max_start=9 if big else 6, max_nev=2,
-                         min_nev=1, min_start=2, pol=pol, delay_set=[0, 1, 2, 0.5, 0.1, 0.2, 0.3])
+                         min_nev=1, min_start=3, min_instrs=2, pol=pol, delay_set=[0, 1, 2, 0.5, 0.1, 0.2, 0.3])
 
 
 PROP = Property(
